@@ -23,11 +23,63 @@ def prop(pid, modules, level="proof", **kw):
     PROPS[pid] = d
 
 
+
+import os, subprocess, json, time
+
+def _surface(seed, tier):
+    """C19: the static-assertion crate is type-checked against /repo with and without serde."""
+    root = os.path.dirname(os.path.abspath(__file__))
+    env = dict(os.environ, CARGO_NET_OFFLINE="true")
+    fails, info = [], {"rustc_checks": []}
+    for feats in ([], ["--features", "serde"]):
+        p = subprocess.run(["cargo", "check", "--offline"] + feats, cwd=os.path.join(root, "surface"), env=env,
+                           stdout=subprocess.PIPE, stderr=subprocess.STDOUT, text=True)
+        ok = p.returncode == 0
+        info["rustc_checks"].append({"features": feats[-1] if feats else "default", "ok": ok})
+        if not ok:
+            errs = [l for l in p.stdout.splitlines() if l.startswith("error")]
+            fails.append({"key": "surface:" + (feats[-1] if feats else "default"),
+                          "msg": "static trait-bound assertions do not type-check: " + " | ".join(errs[:4])[:600],
+                          "case": "surface|typecheck|" + (feats[-1] if feats else "default") + "||||",
+                          "pretty": p.stdout[-1500:]})
+    return fails, info
+
 prop("C01", ["TaRs.Props.C01"],
-     explanation="L2 theorems: the generated next of SMA/WMA/SD/MAD/Min/Max/BB computes the statistic of exactly the last min(t,n) inputs in exact arithmetic (X K); f64 rounding within tau(t) is sampled against double-double references.")
+     explanation="L2 theorems (X K, any linearly ordered field): the generated next of SMA/WMA/SD/MAD/Min/Max/BB computes the statistic of exactly the last min(t,n) inputs for every period, stream and prefix; f64 rounding within tau(t) is sampled against double-double references.")
 prop("C02", ["TaRs.Props.C02"],
-     explanation="L0 theorems (any Scalar, hence f64 incl. NaN): EMA seeding/recursion, TrueRange branches, ATR/MACD/KC/CE wiring are literally the documented formulas in the documented operation order; tau(t) agreement with re-associated from-scratch evaluation is sampled.")
+     explanation="L0 whole-stream theorems (any Scalar, hence f64 incl. NaN): EMA seeding/recursion, TrueRange branches, ATR/MACD/KC/CE wiring are the documented formulas in the documented operation order; tau(t) agreement with from-scratch evaluation is sampled.")
+prop("C03", ["TaRs.Props.C03", "TaRs.Props.C03a", "TaRs.Lemmas.Exact.FastStochastic"],
+     explanation="L0 per-step and whole-stream formulas (RSI, PPO, OBV, SlowStochastic, CCI wiring, FastStochastic wiring) + L2 exact lookback/window theorems as they are completed (Lemmas/Exact); tau(t)·c agreement sampled with double-double references and condition-number gating.")
 prop("C04", ["TaRs.Props.C04"],
      explanation="L0 theorem per indicator: on every well-formed (hence every reachable) state reset yields exactly the state new builds; parameters unchanged; idempotent. State equality needs no arithmetic, so NaN/inf histories are covered.")
+prop("C05", ["TaRs.Props.C05", "TaRs.Props.C19"],
+     explanation="generic theorems about pure step functions: determinism, clone equivalence, independence under every interleaving of n instances (product of machines); their content for the code is the purity gate + plain-data table (C19 theorems, regenerated every run). Threads are exercised on the implementation only.")
+prop("C06", ["TaRs.Props.C06"],
+     explanation="L0: dec (enc s ++ r) = (s, r) for the generated bincode codec of every indicator on every well-formed state; serde_derive/bincode are modelled and tied by byte comparison of every logged state.")
+prop("C07", ["TaRs.Props.C07", "TaRs.Lemmas.Exact.FastStochastic"],
+     explanation="L2: ratio-of-non-negatives and convex-combination lemmas, RSI value range, alpha in (0,1]; exact range theorems of FastStochastic/ER/MFI in Lemmas/Exact as completed; 1e-9 slack sampled.")
+prop("C08", ["TaRs.Props.C08"],
+     explanation="L1 guard theorems for any Scalar (output is the neutral literal or a quotient whose denominator tested non-zero on that path) for FastStochastic, CCI, ER, MFI, RSI; exact neutral values at X K from Lemmas/Exact; residue/underflow are float-only and searched on the implementation (two known findings).")
+prop("C09", ["TaRs.Props.C09"],
+     explanation="L2 inequalities at X K (SD, MAD >= 0, bands ordered, hulls, Min <= Max), L1 clamp theorem (m2 never negative for any Scalar with not (0 < 0)), L0 histogram identity; tau slack sampled.")
+prop("C10", ["TaRs.Props.C10"],
+     explanation="L0: nextBar = next on the documented field for every state and scalar; field-independence for all 22; one-price bars under explicit IEEE-true laws; DataItem getters are projections.")
+prop("C11", ["TaRs.Props.C11"],
+     explanation="L0: exact characterisation of every constructor (Err iff a period is 0; never panics for allocation-free ones up to any Nat, for windowed ones while 8n <= isize::MAX), accessors stable for the whole life, Display templates, Default = new(documented defaults).")
 prop("C12", ["TaRs.Props.C12"],
-     explanation="L0 theorem per indicator: from new, every sequence of next/nextBar/reset of any length returns normally for ANY scalar semantics (inputs incl. NaN/inf are just values of F); invariant WF by induction over the op list. clone/Debug/serialize returning normally is observed on the implementation only.")
+     explanation="L0 theorem per indicator: from new, every sequence of next/nextBar/reset of any length returns normally for ANY scalar semantics; invariant WF by induction over the op list. clone/Debug/serialize returning normally is observed on the implementation only.")
+prop("C13", ["TaRs.Props.C13"],
+     explanation="exact half (theorem): accumulators equal the from-scratch window statistic after every stream of any length (SMA, WMA, SD, MAD, BB); float half (NOT a theorem): drift over 10^5..2·10^6-step runs measured on the implementation against double-double recomputation of the window.")
+prop("C14", ["TaRs.Props.C14"],
+     explanation="L2: homogeneity/shift laws of the window statistics and their stream-level corollaries through the C01 theorems; bit-exactness for 2^k and 1e-9 otherwise are sampled on pairs of runs.")
+prop("C15", ["TaRs.Props.C15"],
+     explanation="L0 simulation identities: each composite run over a stream equals the documented combination of separately constructed public parts run over the same stream (Option-valued, panics compared too). BB.average vs SMA is the exact-arithmetic theorem pair of C01.")
+prop("C16", ["TaRs.Props.C16"],
+     explanation="L0: verdict of build() for every setter sequence, getters return the last value, order irrelevance, NaN rejected under the IEEE hypothesis; all 10^5 lattice tuples enumerated on the implementation (exhaustive) and replayed on the model.")
+prop("C17", ["TaRs.Props.C17"],
+     explanation="L2 corollaries of C01: after any history the output equals that of a fresh indicator fed the last n inputs (SMA, WMA, SD, MAD, BB; Min/Max order-only); n+1-memory indicators and f64 slack are covered by the harness oracle.")
+prop("C18", ["TaRs.Props.C18"],
+     explanation="L0: the model's bincode length is a closed form in the parameters, invariant under next/reset, bounded by 256+64·Σperiods; real bincode length compared at every logged state; live heap bytes measured with a counting allocator.")
+prop("C19", ["TaRs.Props.C19"], level="other", oracle=False, extra=_surface,
+     explanation="Decided by rustc: the static-assertion crate /verif/surface (every bound the property lists, for every type, user types providing only the needed price traits, tuple conversions, TaError) is type-checked against /repo with and without the serde feature on every run. Lean additionally decides (kernel evaluation over the whole table regenerated from the source) that the derive/impl/field-type fact base matches the documented surface and that every field type is owned plain data; Rust's auto-trait rules are modelled, not verified.",
+     rule="2 rustc type-checking runs (default features, serde); 12 table theorems")
